@@ -417,7 +417,7 @@ fn state_of(node: &Node, contribution: Option<FilterEstimate>, prog: ProgramData
 
 pub fn run(rep: &mut Report, tier: &str, seed: u64, shard: (u32, u32), _replay: Option<&str>) {
     rep.rule = "instance states taken from live simulated instances through the public getters the daemon uses (grandmaster, slave with servo estimates, 1-8-port boundary clocks, P2P ports with measured link delay, Faulty/Passive/Listening ports, path lists 0..128, every time-properties combination) plus synthetic extremes (offsets/delays up to +-10 s and beyond 64 bits of 2^-32 ns, negative values), served to the real exporter over a harness observation socket; the HTTP response is parsed independently and every metric compared; distinct = distinct JSON states".into();
-    rep.require(&["aborted_scrape", "p2p_mean_link_delay_checked", "steps_removed_checked_without_slave_port", "json_roundtrip", "http_response", "exposition_parsed", "metric_compared"]);
+    rep.require(&["aborted_scrape", "state_with_e2e_port_before_p2p_port", "p2p_mean_link_delay_checked", "steps_removed_checked_without_slave_port", "json_roundtrip", "http_response", "exposition_parsed", "metric_compared"]);
     let mut ctx = match start_ctx(&format!("c19-{}", shard.0)) {
         Ok(c) => c,
         Err(e) => {
@@ -436,6 +436,13 @@ pub fn run(rep: &mut Report, tier: &str, seed: u64, shard: (u32, u32), _replay: 
         let mut b = Build::new(rng.gen_range(1..250));
         b.n_ports = n_ports;
         b.p2p = rng.gen_bool(0.4);
+        if n_ports > 1 && rng.gen_bool(0.4) {
+            // mixed delay mechanisms, in every port order
+            b.p2p_ports = (0..n_ports).map(|_| rng.gen_bool(0.5)).collect();
+            if b.p2p_ports.windows(2).any(|w| !w[0] && w[1]) {
+                rep.ev("state_with_e2e_port_before_p2p_port");
+            }
+        }
         b.path_trace = rng.gen_bool(0.5);
         b.priority1 = rng.gen();
         b.clock_class = [6u8, 128, 248, 255][rng.gen_range(0..4)];
@@ -490,7 +497,7 @@ pub fn run(rep: &mut Report, tier: &str, seed: u64, shard: (u32, u32), _replay: 
             }
             _ => {
                 // P2P fault: two responders
-                if b.p2p {
+                if b.p2p_ports.first().copied().unwrap_or(b.p2p) {
                     let _ = make_slave(&mut node, 0, &mut remote);
                     let _ = node.call(0, Call::DelayRequestTimer);
                     let (c, pn) = node.port_identity_bytes(0);
